@@ -936,21 +936,8 @@ func (bc *Blockchain) RemoveBlockFromState(txn adb.Txn, bl *block.Block, blhash 
 		}
 	}
 
-	// remove transactions in reverse order
-	for i := len(txs) - 1; i >= 0; i-- {
-		tx := txs[i].Tx
-		txhash := txs[i].Hash
-
-		Log.Devf("removing transaction %x (index %d) from state", txhash, i)
-
-		err := bc.RemoveTxFromState(txn, tx, address.FromPubKey(tx.Signer), bl, blhash, stats, txhash)
-		if err != nil {
-			Log.Err(err)
-			return err
-		}
-	}
-
-	// remove coinbase transacton
+	// remove coinbase transacton first: it was the last thing applied by ApplyBlockToState, and undoing the
+	// PoS reward restores the delegate as it was after this block's transactions
 	totalReward := bl.Reward() + totalFee
 	if totalReward < bl.Reward() {
 		return errors.New("reward overflow in block")
@@ -970,6 +957,20 @@ func (bc *Blockchain) RemoveBlockFromState(txn adb.Txn, bl *block.Block, blhash 
 	if err != nil {
 		Log.Err(err)
 		return err
+	}
+
+	// remove transactions in reverse order
+	for i := len(txs) - 1; i >= 0; i-- {
+		tx := txs[i].Tx
+		txhash := txs[i].Hash
+
+		Log.Devf("removing transaction %x (index %d) from state", txhash, i)
+
+		err := bc.RemoveTxFromState(txn, tx, address.FromPubKey(tx.Signer), bl, blhash, stats, txhash)
+		if err != nil {
+			Log.Err(err)
+			return err
+		}
 	}
 	return nil
 }
